@@ -6,25 +6,50 @@ PROP = dict(
         theorems=['determined_by_visible_covering', 'hidden_irrelevant', 'hidden_removable', 'uncovered_irrelevant',
                   'invisible_alpha_cell_irrelevant', 'invisible_cell_irrelevant', 'opaque_cuts', 'modifier_alpha_flag_irrelevant',
                   'layer_contribution_translates', 'translate', 'insert_empty_alpha', 'edit_hidden',
-                  'translate_stack', 'getCharC_eq_getChar'],
+                  'translate_stack', 'getCharC_eq_getChar',
+                  # "topmost first" (complete case split of the walk; true of the repaired opaque branch)
+                  'topmost_first', 'topmost_first_plain', 'topmost_opaque_blank', 'nothing_visible',
+                  # the offset state machine of Layer (set_offset / set_preview_offset / get_offset / position lock)
+                  'set_offset_places', 'set_offset_shows_at', 'set_offset_locked_ignored', 'preview_shows_at',
+                  'layers_independent', 'picture_after_history', 'move_layer_by', 'translate_stack_api',
+                  # HalfBlock::from on the regenerated CP437 bitmaps
+                  'halfblock_cp437_shapes', 'halfblock_cp437_blocks'],
         harness='c13',
         design='DESIGN.md §4 C13',
         technique='Lean 4 proof (induction over the layer stack with the loop state (ch_opt, attr_opt, default_font_page, '
-                  'transparent_char) generalised; the half-block classifier of make_solid_color is an uninterpreted parameter, '
-                  'so the laws hold for every font table) over a literal transcription of impl TextPane for Buffer::get_char; '
-                  'constants regenerated from the source; differential correspondence of Buffer::get_char against the model '
-                  'at every position of the bounding box + 2; the relational laws additionally evaluated on real Buffers',
+                  'transparent_char) generalised; the half-block classifier of make_solid_color is a parameter of the laws, '
+                  'so they hold for every font table; induction over operation histories for the offset state machine of Layer) '
+                  'over a literal transcription of impl TextPane for Buffer::get_char, Layer::{get_offset, get_base_offset, '
+                  'set_offset, set_preview_offset} and HalfBlock::from; constants and the glyph bitmaps of the fonts the harness '
+                  'installs regenerated from the source tree; differential correspondence of Buffer::get_char against the model '
+                  'at every position of the bounding box + 2, of real Layers driven through position-operation histories, of '
+                  'make_solid_color on every glyph, of the cell predicates and of Layer::get_char; the relational laws '
+                  'additionally evaluated on real Buffers',
         rule='cases: seeded stacks per the quantifier (1..=5 layers, 1..=12 x 1..=8, offsets -4..=6, normal/chars/attributes, '
              'alpha/opaque, visible/hidden, sparse ragged content incl. TRANSPARENT_COLOR half blocks and invisible cells with '
              'arbitrary content, both is_terminal_buffer settings), each compared cell by cell at every position of the bounding '
              'box + 2; small-scope stacks of 1x1 layers (exhaustive up to 3 layers in thorough); i32-edge offsets '
-             '(correspondence only); oracle per stack: insert empty alpha layer at every index, edit / remove every hidden '
-             'layer, translate the stack, remove a layer (uncovered positions), rewrite invisible cells, replace everything '
-             'beneath an opaque layer; distinct_nontrivial = distinct stacks of the quantifier',
+             '(correspondence only); histories of set_offset (same / different position) / set_preview_offset(Some/None) / '
+             'position lock / direct offset writes on real Layers: seeded on random stacks, exhaustive up to length 3 (thorough: 4) '
+             'over a 9-operation alphabet; make_solid_color over every glyph code of the three installed fonts, an absent font '
+             'and absent glyphs; is_visible / is_transparent over every attribute bit; Layer::get_char on ragged layers incl. '
+             'positions outside. Oracle per stack: topmost first (the first Normal cell from the top, merged with the '
+             'char/attribute cells above it, decides everything but its transparent colours; opaque blank; fall-through), insert '
+             'empty alpha layer at every index, edit / remove every hidden layer, translate the stack, remove a layer (uncovered '
+             'positions), rewrite invisible cells, replace everything beneath an opaque layer; per history step: the picture '
+             'equals that of a stack built from scratch with every layer at the offset the API documents, and the three '
+             'getters agree; distinct_nontrivial = distinct stacks / histories of the quantifier',
         modelled='impl TextPane for Buffer::get_char (all return paths, overlay_layer = None), fn merge, Buffer::make_solid_color, '
-                 'impl TextPane for Layer::get_char (ragged rows), AttributedChar::{is_visible,is_transparent,invisible,default}, '
-                 'the checked i32 subtraction pos - offset',
-        not_modelled='the overlay layer (outside the quantifier; overlay_layer_index is positional); HalfBlock::from is a '
-                     'parameter of the model (sampled from the implementation per (font page, char) for the correspondence run)',
+                 'HalfBlock::from (font lookup, the two count_ones loops, the > width*height/4 threshold; glyph bitmaps of ANSI '
+                 'font slots 0, 32, 42 regenerated from data/fonts), impl TextPane for Layer::get_char (ragged rows), '
+                 'Layer::{get_offset, get_base_offset, get_preview_offset, set_offset, set_preview_offset} with '
+                 'properties.is_position_locked and direct writes of properties.offset, '
+                 'AttributedChar::{is_visible,is_transparent,invisible,default}, the checked i32 subtraction pos - offset',
+        not_modelled='the overlay layer (outside the quantifier: overlay_layer_index is positional, so inserting a layer moves '
+                     'the overlay; kept excluded, overlay_layer = None in every case); fonts other than the three the harness '
+                     'installs (the laws are proved for every classifier; the transcription of HalfBlock::from is tied on those '
+                     'three); the half-block PAINTER of src/paint/half_block.rs (get_halfblock, optimize_block, flip_colors: '
+                     'they produce cells, the compositor never calls them); Layer mutators other than the position API '
+                     '(set_char, join, insert_line … belong to C08)',
         thorough_exhaustive=True,
     )
